@@ -122,9 +122,7 @@ class GBackend(Backend, backend_name="vtsym"):
     def index_update(tensor, indices, values):
         return G.index_update(tensor, indices, values)
 
-    @staticmethod
-    def where(*a, **k):
-        raise EngineError("where in E1-generic")
+    where = staticmethod(G.where)
 
     @staticmethod
     def max(tensor, axis=None):
